@@ -467,7 +467,14 @@ func (eq *eq) Execute(searcher index.GetSearcher, seriesID common.SeriesID, tr *
 }
 
 func (eq *eq) ShouldSkip(tagFamilyFilters index.FilterOp) (bool, error) {
-	return !tagFamilyFilters.Eq(eq.Key.Tags[0], eq.Expr.String()), nil
+	// The block filters are built from the stored (encoded) tag values, so they must be probed with the
+	// encoded form of the literal: the text form of an integer never matches and every block was skipped.
+	for _, b := range eq.Expr.Bytes() {
+		if tagFamilyFilters.Eq(eq.Key.Tags[0], convert.BytesToString(b)) {
+			return false, nil
+		}
+	}
+	return true, nil
 }
 
 func (eq *eq) MarshalJSON() ([]byte, error) {
